@@ -51,6 +51,15 @@ def gen_txn(rng: random.Random, tier: str) -> dict:
     keys = gen_keys(rng, 2, 4)
     initial = {k: f"init_{k}" for k in keys if rng.random() < 0.6}
     iso_mode = rng.choice(["ser", "si", "mixed", "mixed"])
+    # lockstep: clients start together and think for 0-8 microseconds only, so that begins, reads and commits of
+    # different transactions fall within the manager's own 1-10 microsecond begin / write / commit latencies
+    lockstep = rng.random() < 0.35
+    if lockstep:
+        def think():
+            return rng.choice([0.0, 0.0, 1e-6, 3e-6, 8e-6])
+    else:
+        def think():
+            return gen_think(rng, scale)
     n_clients = rng.randint(2, 5)
     clients = []
     for _ in range(n_clients):
@@ -59,18 +68,18 @@ def gen_txn(rng: random.Random, tier: str) -> dict:
             tkeys = rng.sample(keys, min(len(keys), rng.randint(2, 3)))
             ops = []
             for _ in range(rng.randint(1, 4)):
-                ops.append([gen_think(rng, scale), rng.choice(["r", "r", "w"]), rng.choice(tkeys)])
+                ops.append([think(), rng.choice(["r", "r", "w"]), rng.choice(tkeys)])
             iso = iso_mode if iso_mode != "mixed" else rng.choices(["ser", "si", "rc"], [0.45, 0.4, 0.15])[0]
             txns.append(
                 {
-                    "think": gen_think(rng, scale),
+                    "think": think(),
                     "iso": iso,
                     "ops": ops,
                     "end": "abort" if rng.random() < 0.07 else "commit",
-                    "end_think": gen_think(rng, scale),
+                    "end_think": think(),
                 }
             )
-        clients.append({"start": gen_think(rng, 2 * scale), "txns": txns})
+        clients.append({"start": think() if lockstep else gen_think(rng, 2 * scale), "txns": txns})
     return {"store": cfg, "keys": keys, "initial": initial, "clients": clients}
 
 
